@@ -169,6 +169,9 @@ def choose(ctx, tuples):
         elif m == 6:
             s["ns2add"] = 5
             s["append"] = True
+        elif m == 7:
+            s["wrot"] = f"matrix:{s['seed']}"       # a full, non-symmetric whitening matrix
+            s["compare"] = True
     # rejection needs >= 0.3 s of data: two dedicated runs
     extra = [{"ns": 9100, "nbatch": 4096, "nproc": 3, "reject": True, "k_filter": True, "compare": True},
              {"ns": 10240, "nbatch": 5120, "nproc": 5, "reject": True, "k_filter": False, "compare": True}]
